@@ -15,8 +15,9 @@ Proved for all dimensions over any commutative ring / field:
      `e₂ = d₂ − S₂₁S₁₁⁻¹d₁` the prediction error of the second block; contributions sum to the total; a period without
      observations has `det F = 1`, quadratic form `0`;
  (d) variance rescaling identities.
-Kept visible as `_partial` / comments: the induction over periods of (b) and (c) for the stacked system, and
-smoother = conditional expectation given all data (see the end of the file and notes/C03.md).
+The induction over periods of (b) and (c) is carried out on an explicitly built stacked system (`Joint`, `joint`):
+`filter_is_conditioning`, `likelihood_is_stacked_density` hold for N periods and any missing-data pattern.
+Kept visible as a comment: smoother = conditional expectation given all data (see notes/C03.md).
 -/
 import IrisVerif.Lemmas.Kalman
 import Mathlib.Data.Matrix.Block
@@ -27,6 +28,7 @@ import Mathlib.Tactic.Ring
 import Mathlib.Tactic.FieldSimp
 import Mathlib.Algebra.Order.Field.Rat
 import Mathlib.Tactic.NormNum
+import Mathlib.Algebra.BigOperators.Group.Finset.Basic
 
 open Matrix
 
@@ -232,41 +234,348 @@ theorem inverse_scaled {e : Type} [Fintype e] [DecidableEq e] (F Fi : Matrix e e
     (h : F * Fi = 1) : (s • F) * (si • Fi) = 1 := by
   rw [Matrix.smul_mul, Matrix.mul_smul, smul_smul, h, hs, one_smul]
 
-/-! ### multi-period statements
+/-! ### multi-period statements: the stacked system -/
 
-Full statements (targets), of which the theorems above are the induction steps:
+omit [Invertible (2 : K)]
 
-* `filter_is_conditioning` — for every `t`, `(I.a1 t, I.Q1 t)` are the conditional moments of `ξ_t` given the stacked observed rows
-  of periods `0..t` in the joint Gaussian of the stacked system, and `(I.a0 t, I.Q0 t)` those given periods `0..t-1`.
-  Induction step = `model_predict_is_pushforward` (the conditional law of `ξ_t` given the past is the push-forward of that of
-  `ξ_{t-1}`, shocks being uncorrelated with the past) + `joint_cov_state_obs` + `model_update_is_conditioning` +
-  `sequential_eq_joint_mean/cov` with `y₁` = periods `0..t-1`, `y₂` = period `t` (+ `right_inverse_eq_blockInv`).
-  What is missing is the formal object "joint covariance of the stacked system" for a variable number of periods with
-  period-dependent row types (an iterated `⊕` of index types) and the bookkeeping that the cross-covariances of `ξ_t` with the
-  past observations propagate by `T`; the two-period instance is `two_period_filter_is_conditioning_partial` below.
-* `likelihood_is_stacked_density` — `Σ_t (log det F_t + pe_tᵀ Fi_t pe_t) = log det Σ_Y + (Y−μ)ᵀ Σ_Y⁻¹ (Y−μ)`.
-  Induction step = `det_block` + `quadform_block` with the same split; same missing object.
-* `smoother_is_conditioning` — `I.a2 N t` is the conditional mean of `ξ_t` given all observed rows of periods `0..N-1`
-  (de Jong's backward recursion).  Not proved; what is proved about the smoother are the identities of Props/C08.lean.
--/
+section step
+variable {o p : Type} [Fintype o] [Fintype p] [DecidableEq o] [DecidableEq p]
+variable (T : Matrix n n K) (P : Matrix n q K) (Kc : Matrix n k K) (Su : Matrix q q K) (u0 : Matrix q k K)
+  (Z : Matrix p n K) (H : Matrix p w K) (D : Matrix p k K) (Sw : Matrix w w K) (w0 : Matrix w k K) (Fi : Matrix p p K)
+  (y : Matrix p k K)
+  (mx : Matrix n k K) (Vx : Matrix n n K) (Cxy : Matrix n o K) (Vyi : Matrix o o K) (d : Matrix o k K)
+
+/-- (A) the model's `F` (computed from the conditional `Q`) is the Schur complement of the stacked prior covariance -/
+theorem step_F_is_schur :
+    Z * (T * condCov Vx Cxy Vyi Cxyᵀ * Tᵀ + P * Su * Pᵀ) * Zᵀ + H * Sw * Hᵀ
+      = (Z * (T * Vx * Tᵀ + P * Su * Pᵀ) * Zᵀ + H * Sw * Hᵀ) - Z * (T * Cxy) * Vyi * (Z * (T * Cxy))ᵀ := by
+  unfold condCov
+  simp only [Matrix.transpose_mul, Matrix.mul_sub, Matrix.sub_mul, Matrix.mul_add, Matrix.add_mul, Matrix.mul_assoc]
+  abel
+
+/-- (B) the model's prediction error is the innovation of the new block given the past blocks -/
+theorem step_pe_is_innovation :
+    y - (Z * (T * condMean mx Cxy Vyi d + Kc + P * u0) + D + H * w0)
+      = (y - (Z * (T * mx + Kc + P * u0) + D + H * w0)) - Z * (T * Cxy) * Vyi * d := by
+  unfold condMean
+  simp only [Matrix.mul_add, Matrix.mul_assoc]
+  abel
+
+/-- (C) updated mean = conditional mean given the past blocks and the new block jointly -/
+theorem step_mean (a : Matrix n k K) (Q : Matrix n n K)
+    (ha : a = condMean mx Cxy Vyi d) (hQ : Q = condCov Vx Cxy Vyi Cxyᵀ) :
+    let a0 := T * a + Kc + P * u0
+    let Q0 := T * Q * Tᵀ + P * Su * Pᵀ
+    let pe := y - (Z * a0 + D + H * w0)
+    a0 + Q0 * (Zᵀ * Fi) * pe
+      = condMean (T * mx + Kc + P * u0) (fromCols (T * Cxy) ((T * Vx * Tᵀ + P * Su * Pᵀ) * Zᵀ))
+          (blockInv (Z * (T * Cxy))ᵀ (Z * (T * Cxy)) Vyi Fi)
+          (fromRows d (y - (Z * (T * mx + Kc + P * u0) + D + H * w0))) := by
+  intro a0 Q0 pe
+  rw [← sequential_eq_joint_mean]
+  have h1 : a0 = condMean (T * mx + Kc + P * u0) (T * Cxy) Vyi d := by
+    simp only [a0, ha, condMean, Matrix.mul_add, Matrix.mul_assoc]; abel
+  have h2 : Q0 * Zᵀ = (T * Vx * Tᵀ + P * Su * Pᵀ) * Zᵀ - T * Cxy * Vyi * (Z * (T * Cxy))ᵀ := by
+    simp only [Q0, hQ, condCov, Matrix.transpose_mul, Matrix.mul_sub, Matrix.sub_mul, Matrix.mul_add, Matrix.add_mul,
+      Matrix.mul_assoc]
+    abel
+  have h3 : pe = (y - (Z * (T * mx + Kc + P * u0) + D + H * w0)) - Z * (T * Cxy) * Vyi * d := by
+    simp only [pe, a0, ha]
+    exact step_pe_is_innovation T P Kc u0 Z H D w0 y mx Cxy Vyi d
+  rw [← h1, ← h2, ← h3]
+  unfold condMean
+  simp only [Matrix.mul_assoc]
+
+/-- (D) updated MSE = conditional covariance given the past blocks and the new block jointly -/
+theorem step_cov (Q : Matrix n n K) (hQ : Q = condCov Vx Cxy Vyi Cxyᵀ) (hVx : Vxᵀ = Vx) (hSu : Suᵀ = Su) :
+    let Q0 := T * Q * Tᵀ + P * Su * Pᵀ
+    Q0 - Q0 * (Zᵀ * Fi) * Z * Q0
+      = condCov (T * Vx * Tᵀ + P * Su * Pᵀ) (fromCols (T * Cxy) ((T * Vx * Tᵀ + P * Su * Pᵀ) * Zᵀ))
+          (blockInv (Z * (T * Cxy))ᵀ (Z * (T * Cxy)) Vyi Fi)
+          (fromCols (T * Cxy) ((T * Vx * Tᵀ + P * Su * Pᵀ) * Zᵀ))ᵀ := by
+  intro Q0
+  have hV' : (T * Vx * Tᵀ + P * Su * Pᵀ)ᵀ = T * Vx * Tᵀ + P * Su * Pᵀ := by
+    simp only [Matrix.transpose_add, Matrix.transpose_mul, Matrix.transpose_transpose, hVx, hSu, Matrix.mul_assoc]
+  rw [transpose_fromCols, Matrix.transpose_mul ((T * Vx * Tᵀ + P * Su * Pᵀ)) Zᵀ, hV', Matrix.transpose_transpose,
+    ← sequential_eq_joint_cov]
+  have h1 : Q0 = condCov (T * Vx * Tᵀ + P * Su * Pᵀ) (T * Cxy) Vyi (T * Cxy)ᵀ := by
+    simp only [Q0, hQ, condCov, Matrix.transpose_mul, Matrix.mul_sub, Matrix.sub_mul, Matrix.mul_assoc]
+    abel
+  have h2 : Q0 * Zᵀ = (T * Vx * Tᵀ + P * Su * Pᵀ) * Zᵀ - T * Cxy * Vyi * (Z * (T * Cxy))ᵀ := by
+    simp only [Q0, hQ, condCov, Matrix.transpose_mul, Matrix.mul_sub, Matrix.sub_mul, Matrix.mul_add, Matrix.add_mul,
+      Matrix.mul_assoc]
+    abel
+  have h3 : Z * Q0 = Z * (T * Vx * Tᵀ + P * Su * Pᵀ) - Z * (T * Cxy) * Vyi * (T * Cxy)ᵀ := by
+    simp only [Q0, hQ, condCov, Matrix.transpose_mul, Matrix.mul_sub, Matrix.sub_mul, Matrix.mul_add, Matrix.add_mul,
+      Matrix.mul_assoc]
+    abel
+  rw [← h1, ← h2, ← h3]
+  unfold condCov
+  simp only [Matrix.mul_assoc]
+
+
+/-- (F) the block inverse of a symmetric block matrix built from symmetric pieces is symmetric -/
+theorem blockInv_symm (S21 : Matrix p o K) (hVyi : Vyiᵀ = Vyi) (hFi : Fiᵀ = Fi) :
+    (blockInv S21ᵀ S21 Vyi Fi)ᵀ = blockInv S21ᵀ S21 Vyi Fi := by
+  unfold blockInv
+  rw [fromBlocks_transpose]
+  congr 1
+  · simp only [Matrix.transpose_add, Matrix.transpose_mul, Matrix.transpose_transpose, hVyi, hFi, Matrix.mul_assoc]
+  · simp only [Matrix.transpose_neg, Matrix.transpose_mul, Matrix.transpose_transpose, hVyi, hFi, Matrix.mul_assoc]
+  · simp only [Matrix.transpose_neg, Matrix.transpose_mul, Matrix.transpose_transpose, hVyi, hFi, Matrix.mul_assoc]
+
+/-- (G) determinant step: `det` of the extended stacked covariance = `det` of the past one times `det` of the Schur complement -/
+theorem step_det (Vy : Matrix o o K) (S12 : Matrix o p K) (S21 : Matrix p o K) (S22 : Matrix p p K)
+    (hinv : Vy * Vyi = 1) :
+    (fromBlocks Vy S12 S21 S22).det = Vy.det * (S22 - S21 * Vyi * S12).det := by
+  let _ : Invertible Vy := _root_.invertibleOfRightInverse Vy Vyi hinv
+  have h : ⅟Vy = Vyi := invOf_eq_right_inv hinv
+  rw [det_fromBlocks₁₁, h]
+
+end step
+
+/-! ### the stacked system, built period by period
+
+`Joint` holds, for the state `ξ` handed to some period and the stacked vector `Y` of all rows observed before it: the index type
+of `Y` (a finite type grown by `⊕ p t` per period — any missing-data pattern), the PRIOR (unconditional) mean and covariance of
+`ξ`, the prior cross-covariance `cov(ξ, Y)`, the prior covariance `Vy = cov(Y)`, a candidate inverse `Vyi`, and the stacked data
+minus its prior mean `d = Y − μ_Y`.  `Joint.step` is the moment recursion of the linear state-space model itself
+(`ξ' = Tξ + K + Pu`, `y = Zξ' + D + Hw`, `u`, `w` uncorrelated with everything earlier):
+`cov(ξ',Y) = T cov(ξ,Y)`, `cov(ξ',y) = V' Zᵀ`, `cov(y,Y) = Z T cov(ξ,Y)`, `cov(y) = Z V' Zᵀ + H Σw Hᵀ`; no conditioning is
+involved in `mx Vx Cxy Vy d`.  Only `Vyi` uses the filter's `Fi` (block inverse through the Schur complement), and the theorem
+proves that it IS the inverse of `Vy`. -/
+
+structure Joint (n k : Type) (K : Type) where
+  ι : Type
+  fin : Fintype ι
+  dec : DecidableEq ι
+  mx : Matrix n k K
+  Vx : Matrix n n K
+  Cxy : Matrix n ι K
+  Vy : Matrix ι ι K
+  Vyi : Matrix ι ι K
+  d : Matrix ι k K
+
+attribute [instance] Joint.fin Joint.dec
+
+variable {p : ℕ → Type} [∀ t, Fintype (p t)] [∀ t, DecidableEq (p t)]
+
+/-- before the first period: nothing observed yet -/
+def Joint.init (I : Inputs n q w k p K) : Joint n k K :=
+  { ι := Empty, fin := inferInstance, dec := inferInstance, mx := I.aInit, Vx := I.QInit, Cxy := 0, Vy := 0, Vyi := 0, d := 0 }
+
+/-- one period of the model: the state moves on, the rows observed in period `t` are appended to `Y` -/
+def Joint.step (J : Joint n k K) (I : Inputs n q w k p K) (t : ℕ) : Joint n k K :=
+  { ι := J.ι ⊕ p t, fin := inferInstance, dec := inferInstance
+    mx := I.T * J.mx + I.Kc + I.P * I.u0 t
+    Vx := I.T * J.Vx * I.Tᵀ + I.P * I.Su t * I.Pᵀ
+    Cxy := fromCols (I.T * J.Cxy) ((I.T * J.Vx * I.Tᵀ + I.P * I.Su t * I.Pᵀ) * (I.Z t)ᵀ)
+    Vy := fromBlocks J.Vy (I.Z t * (I.T * J.Cxy))ᵀ (I.Z t * (I.T * J.Cxy))
+      (I.Z t * (I.T * J.Vx * I.Tᵀ + I.P * I.Su t * I.Pᵀ) * (I.Z t)ᵀ + I.H t * I.Sw t * (I.H t)ᵀ)
+    Vyi := blockInv (I.Z t * (I.T * J.Cxy))ᵀ (I.Z t * (I.T * J.Cxy)) J.Vyi (I.Fi t)
+    d := fromRows J.d (I.y t - (I.Z t * (I.T * J.mx + I.Kc + I.P * I.u0 t) + I.D t + I.H t * I.w0 t)) }
+
+/-- `joint I t`: state handed to period `t` and all rows observed in periods `0 … t-1` -/
+def joint (I : Inputs n q w k p K) : ℕ → Joint n k K
+  | 0 => Joint.init I
+  | t + 1 => (joint I t).step I t
+
+/-- "`(a, Q)` are the conditional moments of the state given the stacked observations", with a certified symmetric inverse -/
+structure Joint.Good (J : Joint n k K) (a : Matrix n k K) (Q : Matrix n n K) : Prop where
+  inv : J.Vy * J.Vyi = 1
+  VyiT : J.Vyiᵀ = J.Vyi
+  VxT : J.Vxᵀ = J.Vx
+  mean : a = condMean J.mx J.Cxy J.Vyi J.d
+  cov : Q = condCov J.Vx J.Cxy J.Vyi J.Cxyᵀ
 
 variable [Invertible (2 : K)]
+variable (I : Inputs n q w k p K)
 
-/-- two-period instance of `filter_is_conditioning`: the model's updated mean of period 1 is the conditional mean of `ξ₁` given
-the observed rows of periods 0 and 1 *jointly*, whenever the joint second moments of `(ξ₁, y₀, y₁)` given to the lemma are the
-push-forward ones: cross-covariance of `ξ₁` with `y₀` is `Sx0`, with `y₁` is `Sx1`, `cov(y₁,y₀) = S10`, and the one-step
-quantities of the model are the conditional ones given `y₀` (hypotheses `hmean`, `hcross`, `hF`, `hpe`), which is what
-`model_predict_is_pushforward` and `model_update_is_conditioning` deliver for period 0. -/
-theorem two_period_filter_is_conditioning_partial {p : ℕ → Type} [∀ t, Fintype (p t)] [∀ t, DecidableEq (p t)]
-    (I : Inputs n q w k p K) (hI : I.Regular)
-    (μ1 : Matrix n k K) (Sx0 : Matrix n (p 0) K) (Sx1 : Matrix n (p 1) K) (S01 : Matrix (p 0) (p 1) K) (S10 : Matrix (p 1) (p 0) K)
-    (S00i : Matrix (p 0) (p 0) K) (d0 : Matrix (p 0) k K) (d1 : Matrix (p 1) k K)
-    (hmean : I.a0 1 = condMean μ1 Sx0 S00i d0)
-    (hcross : I.Q0 1 * (I.Z 1)ᵀ = Sx1 - Sx0 * S00i * S01)
-    (hpe : I.y 1 - I.y0 1 = d1 - S10 * S00i * d0) :
-    I.a1 1 = condMean μ1 (fromCols Sx0 Sx1) (blockInv S01 S10 S00i (I.Fi 1)) (fromRows d0 d1) := by
-  rw [(model_update_is_conditioning I hI 1).1, hmean, hcross, hpe]
-  exact sequential_eq_joint_mean S01 S10 S00i (I.Fi 1) μ1 Sx0 Sx1 d0 d1
+theorem Joint.init_good (hI : I.Regular) : (Joint.init I).Good I.aInit I.QInit where
+  inv := by ext i; exact i.elim
+  VyiT := by ext i; exact i.elim
+  VxT := hI.QInit_symm
+  mean := by
+    show I.aInit = I.aInit + (0 : Matrix n Empty K) * (0 : Matrix Empty Empty K) * (0 : Matrix Empty k K)
+    rw [Matrix.zero_mul, Matrix.zero_mul, add_zero]
+  cov := by
+    show I.QInit = I.QInit - (0 : Matrix n Empty K) * (0 : Matrix Empty Empty K) * (0 : Matrix n Empty K)ᵀ
+    rw [Matrix.zero_mul, Matrix.zero_mul, sub_zero]
+
+/-- one period: if the moments handed to period `t` are the conditional ones given the rows observed so far, the model's updated
+moments are the conditional ones given those rows and the rows observed in period `t` -/
+theorem Joint.step_good (hI : I.Regular) (t : ℕ) (J : Joint n k K) (hJ : J.Good (I.state t).1 (I.state t).2)
+    (hF : I.F t * I.Fi t = 1) : (J.step I t).Good (I.state (t + 1)).1 (I.state (t + 1)).2 := by
+  have hQ0 := I.Q0_eq hI t
+  have hFe := I.F_eq hI t
+  have hQ1 := I.Q1_eq hI t
+  have hSchur : (I.Z t * (I.T * J.Vx * I.Tᵀ + I.P * I.Su t * I.Pᵀ) * (I.Z t)ᵀ + I.H t * I.Sw t * (I.H t)ᵀ
+      - I.Z t * (I.T * J.Cxy) * J.Vyi * (I.Z t * (I.T * J.Cxy))ᵀ) * I.Fi t = 1 := by
+    rw [← step_F_is_schur, ← hJ.cov, ← hQ0, ← hFe, hF]
+  refine ⟨?_, ?_, ?_, ?_, ?_⟩
+  · exact block_mul_blockInv J.Vy _ _ _ J.Vyi (I.Fi t) hJ.inv hSchur
+  · exact blockInv_symm (Fi := I.Fi t) (Vyi := J.Vyi) _ hJ.VyiT (hI.Fi_symm t)
+  · show (I.T * J.Vx * I.Tᵀ + I.P * I.Su t * I.Pᵀ)ᵀ = I.T * J.Vx * I.Tᵀ + I.P * I.Su t * I.Pᵀ
+    simp only [Matrix.transpose_add, Matrix.transpose_mul, Matrix.transpose_transpose, hJ.VxT, hI.Su_symm t, Matrix.mul_assoc]
+  · have h := step_mean I.T I.P I.Kc (I.Su t) (I.u0 t) (I.Z t) (I.H t) (I.D t) (I.w0 t) (I.Fi t) (I.y t) J.mx J.Vx J.Cxy J.Vyi J.d
+      (I.state t).1 (I.state t).2 hJ.mean hJ.cov
+    simp only at h
+    rw [← hQ0] at h
+    exact h
+  · have h := step_cov I.T I.P (I.Su t) (I.Z t) (I.Fi t) J.Vx J.Cxy J.Vyi (I.state t).2 hJ.cov hJ.VxT (hI.Su_symm t)
+    simp only at h
+    rw [← hQ0] at h
+    show I.Q1 t = _
+    rw [hQ1]
+    exact h
+
+/-- **filter = exact Gaussian conditioning, N periods, any missing-data pattern.**  For every `t`: the moments `(a, Q)` the filter
+hands to period `t` (the initial ones for `t = 0`, the updated ones `a1 (t-1), Q1 (t-1)` after) are the conditional mean and
+covariance of the state given the stacked vector of ALL rows observed in periods `0 … t-1`, computed in the joint Gaussian of the
+stacked system — `prior mean + C Σ⁻¹ (Y − μ)`, `V − C Σ⁻¹ Cᵀ` — and `Σ⁻¹ = (joint I t).Vyi` is a genuine (two-sided, symmetric)
+inverse of the stacked covariance.  Hypothesis: `F_s Fi_s = 1` for the periods used (re-checked exactly by the executable model). -/
+theorem filter_is_conditioning (hI : I.Regular) (t : ℕ) (hF : ∀ s, s < t → I.F s * I.Fi s = 1) :
+    (joint I t).Good (I.state t).1 (I.state t).2 := by
+  induction t with
+  | zero => exact Joint.init_good I hI
+  | succ t ih =>
+    exact Joint.step_good I hI t (joint I t) (ih (fun s hs => hF s (by omega))) (hF t (by omega))
+
+/-- the same with ANY right inverse of the stacked covariance (it is unique) -/
+theorem filter_is_conditioning' (hI : I.Regular) (t : ℕ) (hF : ∀ s, s < t → I.F s * I.Fi s = 1)
+    (Si : Matrix (joint I t).ι (joint I t).ι K) (hSi : (joint I t).Vy * Si = 1) :
+    (I.state t).1 = condMean (joint I t).mx (joint I t).Cxy Si (joint I t).d
+    ∧ (I.state t).2 = condCov (joint I t).Vx (joint I t).Cxy Si (joint I t).Cxyᵀ := by
+  have h := filter_is_conditioning I hI t hF
+  have hSi' : Si * (joint I t).Vy = 1 := mul_eq_one_comm.mp hSi
+  have e : Si = (joint I t).Vyi := by
+    calc Si = Si * ((joint I t).Vy * (joint I t).Vyi) := by rw [h.inv, Matrix.mul_one]
+      _ = (joint I t).Vyi := by rw [← Matrix.mul_assoc, hSi', Matrix.one_mul]
+  rw [e]
+  exact ⟨h.mean, h.cov⟩
+
+/-- predicted moments of period `t` = conditional moments given the rows observed in periods `0 … t-1`, pushed through the
+transition equation -/
+theorem predict_is_conditioning (hI : I.Regular) (t : ℕ) (hF : ∀ s, s < t → I.F s * I.Fi s = 1) :
+    I.a0 t = condMean (I.T * (joint I t).mx + I.Kc + I.P * I.u0 t) (I.T * (joint I t).Cxy) (joint I t).Vyi (joint I t).d
+    ∧ I.Q0 t = condCov (I.T * (joint I t).Vx * I.Tᵀ + I.P * I.Su t * I.Pᵀ) (I.T * (joint I t).Cxy) (joint I t).Vyi
+        (I.T * (joint I t).Cxy)ᵀ := by
+  have h := filter_is_conditioning I hI t hF
+  constructor
+  · show I.T * (I.state t).1 + I.Kc + I.P * I.u0 t = _
+    rw [h.mean]
+    simp only [condMean, Matrix.mul_add, Matrix.mul_assoc]; abel
+  · rw [I.Q0_eq hI t, h.cov]
+    simp only [condCov, Matrix.transpose_mul, Matrix.mul_sub, Matrix.sub_mul, Matrix.mul_assoc]; abel
+
+
+/-- one period of the likelihood decomposition: the determinant of the stacked covariance gains the factor `det F_t`, the stacked
+quadratic form gains `pe_tᵀ Fi_t pe_t` -/
+theorem Joint.step_likelihood (hI : I.Regular) (t : ℕ) (J : Joint n k K) (hJ : J.Good (I.state t).1 (I.state t).2) :
+    (J.step I t).Vy.det = J.Vy.det * (I.F t).det
+    ∧ (J.step I t).dᵀ * (J.step I t).Vyi * (J.step I t).d = J.dᵀ * J.Vyi * J.d + (I.pe t)ᵀ * I.Fi t * I.pe t := by
+  have hQ0 := I.Q0_eq hI t
+  have hFe : I.F t = (I.Z t * (I.T * J.Vx * I.Tᵀ + I.P * I.Su t * I.Pᵀ) * (I.Z t)ᵀ + I.H t * I.Sw t * (I.H t)ᵀ)
+      - I.Z t * (I.T * J.Cxy) * J.Vyi * (I.Z t * (I.T * J.Cxy))ᵀ := by
+    rw [← step_F_is_schur, ← hJ.cov, ← hQ0, ← I.F_eq hI t]
+  have hpe : I.pe t = (I.y t - (I.Z t * (I.T * J.mx + I.Kc + I.P * I.u0 t) + I.D t + I.H t * I.w0 t))
+      - I.Z t * (I.T * J.Cxy) * J.Vyi * J.d := by
+    rw [← step_pe_is_innovation, ← hJ.mean]
+    rfl
+  constructor
+  · rw [hFe]
+    exact step_det J.Vyi J.Vy _ _ _ hJ.inv
+  · rw [hpe]
+    exact quadform_block (I.Z t * (I.T * J.Cxy))ᵀ (I.Z t * (I.T * J.Cxy)) J.Vyi (I.Fi t) J.d _
+      (Matrix.transpose_transpose _).symm hJ.VyiT
+
+/-- **likelihood = stacked Gaussian density, N periods, any missing-data pattern.**  The product of the determinants of the
+per-period prediction-error covariances is the determinant of the covariance of the stacked observations (so
+`Σ_t log det F_t = log det Σ_Y`), and the sum of the per-period quadratic forms is the quadratic form of the stacked vector,
+`Σ_t pe_tᵀ Fi_t pe_t = (Y−μ)ᵀ Σ_Y⁻¹ (Y−μ)`: the value reported by `calculate_likelihood` is the negative log-density of the
+observed data under the model's joint Gaussian distribution. -/
+theorem likelihood_is_stacked_density (hI : I.Regular) (t : ℕ) (hF : ∀ s, s < t → I.F s * I.Fi s = 1) :
+    ∏ s ∈ Finset.range t, (I.F s).det = (joint I t).Vy.det
+    ∧ ∑ s ∈ Finset.range t, (I.pe s)ᵀ * I.Fi s * I.pe s = (joint I t).dᵀ * (joint I t).Vyi * (joint I t).d := by
+  induction t with
+  | zero =>
+    constructor
+    · rw [Finset.prod_range_zero]
+      show (1 : K) = (0 : Matrix Empty Empty K).det
+      exact det_isEmpty.symm
+    · rw [Finset.sum_range_zero]
+      show (0 : Matrix k k K) = (0 : Matrix Empty k K)ᵀ * (0 : Matrix Empty Empty K) * (0 : Matrix Empty k K)
+      rw [Matrix.mul_zero]
+  | succ t ih =>
+    have ih' := ih (fun s hs => hF s (by omega))
+    have hJ := filter_is_conditioning I hI t (fun s hs => hF s (by omega))
+    have h := Joint.step_likelihood I hI t (joint I t) hJ
+    constructor
+    · rw [Finset.prod_range_succ, ih'.1]
+      exact h.1.symm
+    · rw [Finset.sum_range_succ, ih'.2]
+      exact h.2.symm
+
+
+/-! ### the stacked prior moments are the push-forward of the model's primitives -/
+
+section pushforward
+variable {o p : Type} [Fintype o] [Fintype p] [DecidableEq o] [DecidableEq p]
+
+theorem fromCols_add' {a b c : Type} (A C : Matrix a b K) (B D : Matrix a c K) :
+    fromCols A B + fromCols C D = fromCols (A + C) (B + D) := by
+  ext i (j | j) <;> simp
+
+theorem fromRows_add' {a b c : Type} (A C : Matrix a c K) (B D : Matrix b c K) :
+    fromRows A B + fromRows C D = fromRows (A + C) (B + D) := by
+  ext (i | i) j <;> simp
+
+/-- `Joint.step` is the push-forward of second moments: with `cov((ξ,Y)) = ((Vx, Cxy),(Cxyᵀ, Vy))` and shocks `u ~ Su`, `w ~ Sw`
+uncorrelated with `(ξ, Y)` and with each other, the covariance of `(ξ', (Y, y))`, `ξ' = Tξ + Pu`, `y = Zξ' + Hw`, is
+`((Vx', Cxy'),(Cxy'ᵀ, Vy'))` with exactly the blocks `Joint.step` builds. -/
+theorem joint_step_is_pushforward (T : Matrix n n K) (P : Matrix n q K) (Z : Matrix p n K) (H : Matrix p w K)
+    (Vx : Matrix n n K) (Cxy : Matrix n o K) (Vy : Matrix o o K) (Su : Matrix q q K) (Sw : Matrix w w K) :
+    let M : Matrix (n ⊕ (o ⊕ p)) ((n ⊕ o) ⊕ (q ⊕ w)) K :=
+      fromBlocks (fromCols T 0) (fromCols P 0) (fromBlocks 0 1 (Z * T) 0) (fromBlocks 0 0 (Z * P) H)
+    let S : Matrix ((n ⊕ o) ⊕ (q ⊕ w)) ((n ⊕ o) ⊕ (q ⊕ w)) K :=
+      fromBlocks (fromBlocks Vx Cxy Cxyᵀ Vy) 0 0 (fromBlocks Su 0 0 Sw)
+    let Vx' := T * Vx * Tᵀ + P * Su * Pᵀ
+    M * S * Mᵀ = fromBlocks Vx' (fromCols (T * Cxy) (Vx' * Zᵀ)) (fromRows (Cxyᵀ * Tᵀ) (Z * Vx'))
+      (fromBlocks Vy (Z * (T * Cxy))ᵀ (Z * (T * Cxy)) (Z * Vx' * Zᵀ + H * Sw * Hᵀ)) := by
+  intro M S Vx'
+  simp only [M, S, Vx', fromBlocks_transpose, transpose_fromCols, fromBlocks_multiply, fromCols_mul_fromBlocks,
+    fromCols_mul_fromRows, Matrix.transpose_zero, Matrix.transpose_one, Matrix.mul_zero, Matrix.zero_mul, Matrix.mul_one,
+    Matrix.one_mul, add_zero, zero_add, Matrix.transpose_mul, Matrix.transpose_add, Matrix.transpose_transpose,
+    fromBlocks_mul_fromRows, fromBlocks_add, fromCols_add', fromRows_add', Matrix.mul_add, Matrix.add_mul, Matrix.mul_assoc,
+    add_assoc]
+
+open IrisVerif.KalmanAbs in
+/-- the blocks `Joint.step` builds ARE that push-forward: the prior second moments of `(ξ', (Y, y))` after period `t` are the
+second moments of `(ξ, Y, u_t, w_t)` pushed through the model's equations -/
+theorem Joint.step_is_pushforward {pp : ℕ → Type} [∀ t, Fintype (pp t)] [∀ t, DecidableEq (pp t)]
+    (J : Joint n k K) (I : Inputs n q w k pp K) (t : ℕ) (hVx : J.Vxᵀ = J.Vx) (hSu : (I.Su t)ᵀ = I.Su t) :
+    let M : Matrix (n ⊕ (J.ι ⊕ pp t)) ((n ⊕ J.ι) ⊕ (q ⊕ w)) K :=
+      fromBlocks (fromCols I.T 0) (fromCols I.P 0) (fromBlocks 0 1 (I.Z t * I.T) 0) (fromBlocks 0 0 (I.Z t * I.P) (I.H t))
+    M * fromBlocks (fromBlocks J.Vx J.Cxy J.Cxyᵀ J.Vy) 0 0 (fromBlocks (I.Su t) 0 0 (I.Sw t)) * Mᵀ
+      = fromBlocks (J.step I t).Vx (J.step I t).Cxy (J.step I t).Cxyᵀ (J.step I t).Vy := by
+  intro M
+  have h := joint_step_is_pushforward I.T I.P (I.Z t) (I.H t) J.Vx J.Cxy J.Vy (I.Su t) (I.Sw t)
+  simp only at h
+  rw [h]
+  have hV' : (I.T * J.Vx * I.Tᵀ + I.P * I.Su t * I.Pᵀ)ᵀ = I.T * J.Vx * I.Tᵀ + I.P * I.Su t * I.Pᵀ := by
+    simp only [Matrix.transpose_add, Matrix.transpose_mul, Matrix.transpose_transpose, hVx, hSu, Matrix.mul_assoc]
+  show _ = fromBlocks _ (fromCols (I.T * J.Cxy) ((I.T * J.Vx * I.Tᵀ + I.P * I.Su t * I.Pᵀ) * (I.Z t)ᵀ))
+    (fromCols (I.T * J.Cxy) ((I.T * J.Vx * I.Tᵀ + I.P * I.Su t * I.Pᵀ) * (I.Z t)ᵀ))ᵀ _
+  rw [transpose_fromCols, Matrix.transpose_mul (I.T * J.Vx * I.Tᵀ + I.P * I.Su t * I.Pᵀ), hV', Matrix.transpose_transpose,
+    Matrix.transpose_mul I.T]
+  rfl
+
+end pushforward
+
+/-! Remaining stated target, NOT proved:
+
+* `smoother_is_conditioning` — `I.a2 N t` is the conditional mean of `ξ_t` given all observed rows of periods `0 … N-1`
+  (de Jong's backward recursion).  What is proved about the smoother are the identities of Props/C08.lean. -/
 
 /-! ### fixed unknown initial condition (`estimate_unknown_init`, `correct_for_unknown_init`)
 
